@@ -16,6 +16,7 @@ static inline void check_creader_skip(const Str &s, const char *sfx, Str (*show)
         long want = ref_skip(s, set);
         PL b(s);
         CS sym(set, 1);
+        b.freeze(), sym.freeze();
         void *r = w_creader_new(b.p, b.n);
         mc::crash_context("C19.%s.memory%s", fn, sfx);
         int cnt = SETS[k] ? w_creader_skip(r, sym.p) : w_creader_skipws(r);
